@@ -1,8 +1,10 @@
 package world
 
 import (
+	"bytes"
 	"fmt"
 	"os"
+	"reflect"
 	"strings"
 	"time"
 
@@ -48,6 +50,22 @@ func shuffled[T any](r *Rng, xs []T) []T {
 }
 
 func last(xs []uint64) uint64 { return xs[len(xs)-1] }
+
+func sameV1(a, b v1msg) bool {
+	return reflect.DeepEqual(pktV1JSON(a.pkt), pktV1JSON(b.pkt)) && bytes.Equal(a.ack, b.ack) && bytes.Equal(a.proof, b.proof) && a.height == b.height && a.signer == b.signer
+}
+
+func sameV2(a, b v2msg) bool {
+	if len(a.acks) != len(b.acks) {
+		return false
+	}
+	for i := range a.acks {
+		if !bytes.Equal(a.acks[i], b.acks[i]) {
+			return false
+		}
+	}
+	return reflect.DeepEqual(pktV2JSON(a.pkt), pktV2JSON(b.pkt)) && bytes.Equal(a.proof, b.proof) && a.height == b.height && a.signer == b.signer
+}
 
 // ---------------------------------------------------------------------------------------------
 // v1
@@ -159,11 +177,14 @@ func (e *renv) phaseV1(r *Rng, s *sinks, d density, p, otherPath *ibctesting.Pat
 		}
 	}
 	singles := e.singleMutsV1(r, x)
-	var early, late []mutV1
+	var early, late, strict []mutV1
 	for _, mu := range shuffled(r, singles) {
-		if lateMutant(mu.name) {
-			late = append(late, mu)
-		} else if full || r.Chance(d.singles) {
+		if m, _ := applyV1(base, mu); lateMutant(mu.name) || sameV1(m, base) {
+			late = append(late, mu) // may legitimately succeed (or changes nothing for this packet)
+			continue
+		}
+		strict = append(strict, mu)
+		if full || r.Chance(d.singles) {
 			early = append(early, mu)
 		}
 	}
@@ -172,14 +193,14 @@ func (e *renv) phaseV1(r *Rng, s *sinks, d density, p, otherPath *ibctesting.Pat
 		done(attempt(s, m, label))
 	}
 	for i := 0; i < d.doubles; i++ {
-		m, label := applyV1(base, Pick(r, singles), Pick(r, singles))
+		m, label := applyV1(base, Pick(r, singles), Pick(r, strict))
 		done(attempt(s, m, label))
 	}
 	seq := k.pkt.Sequence
 	for _, sv := range shuffled(r, e.statesV1(ep, seq, !isAck))[:d.states] {
 		sv.apply()
 		done(attempt(s, base, "state:"+sv.name))
-		m, label := applyV1(base, Pick(r, singles))
+		m, label := applyV1(base, Pick(r, strict))
 		done(attempt(s, m, "state:"+sv.name+"+"+label))
 		sv.restore()
 	}
@@ -309,11 +330,14 @@ func (e *renv) phaseV2(r *Rng, s *sinks, d density, k *sentV2, other *sentV2, is
 		}
 	}
 	singles := e.singleMutsV2(r, x, isAck)
-	var early, late []mutV2
+	var early, late, strict []mutV2
 	for _, mu := range shuffled(r, singles) {
-		if lateMutant(mu.name) {
+		if m, _ := applyV2(base, mu); lateMutant(mu.name) || sameV2(m, base) {
 			late = append(late, mu)
-		} else if full || r.Chance(d.singles) {
+			continue
+		}
+		strict = append(strict, mu)
+		if full || r.Chance(d.singles) {
 			early = append(early, mu)
 		}
 	}
@@ -322,7 +346,7 @@ func (e *renv) phaseV2(r *Rng, s *sinks, d density, k *sentV2, other *sentV2, is
 		done(attempt(s, m, label))
 	}
 	for i := 0; i < d.doubles; i++ {
-		m, label := applyV2(base, Pick(r, singles), Pick(r, singles))
+		m, label := applyV2(base, Pick(r, singles), Pick(r, strict))
 		done(attempt(s, m, label))
 	}
 	svs := shuffled(r, e.statesV2(ep))
@@ -332,7 +356,7 @@ func (e *renv) phaseV2(r *Rng, s *sinks, d density, k *sentV2, other *sentV2, is
 	for _, sv := range svs {
 		sv.apply()
 		done(attempt(s, base, "state:"+sv.name))
-		m, label := applyV2(base, Pick(r, singles))
+		m, label := applyV2(base, Pick(r, strict))
 		done(attempt(s, m, "state:"+sv.name+"+"+label))
 		sv.restore()
 	}
@@ -464,7 +488,8 @@ func init() {
 				report(v)
 			}
 			relayStash = nil
-			for i := 0; i < n; i++ {
+			// every generated attempt was monitored already; -monitor N adds N-1 monitor-only histories
+			for i := 1; i < n; i++ {
 				relayHistory(r, &sinks{report: report})
 			}
 		},
